@@ -6,4 +6,5 @@
 pub mod dim;
 pub mod prefix;
 pub mod qty;
+pub mod syntax;
 pub mod vm;
